@@ -122,6 +122,28 @@ theorem type_changes_only_on_ack (op : Op) (w : World) (h : (after op.run w).tty
   · have k := run_rg cmdOk_true op (opVerbOk_true op) (fun t ht => hs ⟨t, ht⟩)
     exact absurd (k w).1 h
 
+/-- a history of API calls on one client: each call starts in the state the previous one left (returned or thrown) -/
+def runOps : List Op → World → World
+  | [], w => w
+  | op :: ops, w => runOps ops (after op.run w)
+
+/-- **histories**: whatever the calls are and however the server answers - logins, logouts, logins again, transfers,
+    refusals, 421s, lost connections - the transfer type the client reports and converts by at the end of a history is
+    the one it had at the start unless the history contains a `set_transfer_type` call (whose own theorem,
+    `type_changes_only_on_ack`, says it changes the type only on a positive reply) -/
+theorem history_type_changes_only_by_set_type (ops : List Op) (w : World)
+    (h : ∀ op ∈ ops, ∀ t, op ≠ .setType t) : (runOps ops w).ttype = w.ttype := by
+  induction ops generalizing w with
+  | nil => rfl
+  | cons op ops ih =>
+    have h1 : (after op.run w).ttype = w.ttype := by
+      by_cases hc : (after op.run w).ttype = w.ttype
+      · exact hc
+      · obtain ⟨t, ht, _⟩ := type_changes_only_on_ack op w hc
+        exact absurd ht (h op (by simp) t)
+    show (runOps ops (after op.run w)).ttype = w.ttype
+    rw [ih (after op.run w) (fun o ho => h o (List.mem_cons_of_mem _ ho)), h1]
+
 /-- connecting with a user name behaves exactly like connecting and then logging in (when the greeting is not
     negative) -/
 theorem connect_with_user_is_connect_then_login (h : Bytes) (p : Nat) (u pw : Bytes) (w : World)
